@@ -239,9 +239,9 @@ func (e *Engine) runHarness(fn *ssa.Function, h *HarnessDef, tier string) *Harne
 		ConcretizeCap: h.optInt("ccap", 64),
 		Workers:       h.optInt("workers", runtime.NumCPU()),
 	}
-	// every harness has a wall-clock deadline (default 300 s quick / 2400 s thorough); running into it
+	// every harness has a wall-clock deadline (default 300 s quick / 900 s thorough); running into it
 	// makes the harness inconclusive (reduced bound), never held and never violated
-	dl := h.optInt("deadline", map[bool]int{true: 2400, false: 300}[tier == "thorough"])
+	dl := h.optInt("deadline", map[bool]int{true: 900, false: 300}[tier == "thorough"])
 	if s := os.Getenv("VERIF_DEADLINE"); s != "" {
 		if n, err := strconv.Atoi(s); err == nil {
 			dl = n
